@@ -355,6 +355,86 @@ theorem binding_core (W : World N V T) (hW : LowerIdem W) (s : Sig N V T) (wf : 
   · cases hpb
 
 
+theorem mem_boundNames (W : World N V T) (ps : List (Param N V T)) :
+    ∀ (as : List V) (x : N), x ∈ boundNames W ps as →
+      x ∈ keysOf W ps as ∧ ∃ q ∈ ps, q.name = x ∧ q.posOnly = false := by
+  induction ps with
+  | nil => intro as x hx; cases as <;> simp [boundNames] at hx
+  | cons p ps ih =>
+    intro as x hx
+    cases as with
+    | nil => simp [boundNames] at hx
+    | cons a as =>
+      simp only [boundNames] at hx
+      simp only [keysOf]
+      by_cases hp : (!W.priv p.name && !p.posOnly) = true
+      · simp only [hp, if_true] at hx
+        simp only [Bool.and_eq_true, Bool.not_eq_true'] at hp
+        rcases List.mem_cons.mp hx with rfl | hx'
+        · exact ⟨by simp [hp.1], p, by simp, rfl, hp.2⟩
+        · obtain ⟨h1, q, hq, h2⟩ := ih as x hx'
+          refine ⟨?_, q, by simp [hq], h2⟩
+          split
+          · exact h1
+          · exact List.mem_cons_of_mem _ h1
+      · simp only [hp, Bool.false_eq_true, if_false] at hx
+        obtain ⟨h1, q, hq, h2⟩ := ih as x hx
+        refine ⟨?_, q, by simp [hq], h2⟩
+        split
+        · exact h1
+        · exact List.mem_cons_of_mem _ h1
+
+/-- when Python binds the (normalised) call, no keyword names a parameter already bound by position: the duplicate
+check of `parse_params` does not fire -/
+theorem dupBound_false (W : World N V T) (hW : LowerIdem W) (s : Sig N V T) (wf : WF W s)
+    (args : List V) (kw : List (N × V)) (bp : List V)
+    (h1 : ∀ e ∈ kw, e.1 ∉ s.excludeVars W)
+    (hn : ((Spec.normalise W s kw).map (·.1)).Nodup)
+    (hbp : bindPos (Spec.normalise W s kw) s.pos args = some bp) :
+    dupBound W s args kw = false := by
+  cases hd : dupBound W s args kw with
+  | false => rfl
+  | true =>
+    exfalso
+    unfold dupBound at hd
+    obtain ⟨e, he, hm⟩ := List.any_eq_true.mp hd
+    cases hr : resolve W (s.fields W) e.1 with
+    | none => simp [hr] at hm
+    | some f =>
+      simp only [hr, List.contains_iff_mem] at hm
+      obtain ⟨hk, q, hq, hqn, hqpo⟩ := mem_boundNames W s.pos args f.name hm
+      obtain ⟨q', hq', hqn', hq''⟩ := keysOf_given W _ s.pos args bp f.name hbp hk
+      obtain ⟨hf, _⟩ := matches_of_resolve W hW s wf e.1 f hr
+      have hfmem := ((mem_fields W s f).mp hf).1
+      have e1 : q = f := eq_of_name_eq wf.names_nodup (List.mem_append_left _ hq) hfmem hqn
+      have e2 : q' = f := eq_of_name_eq wf.names_nodup (List.mem_append_left _ hq') hfmem hqn'
+      have hfpo : f.posOnly = false := e1 ▸ hqpo
+      have hq3 : f.posOnly = true ∨ (Spec.normalise W s kw).lookup f.name = none := e2 ▸ hq''
+      rcases hq3 with h | h
+      · rw [hfpo] at h; cases h
+      · obtain ⟨hnk, _⟩ := key_field W hW s wf e.1 (h1 e he) f hr hfpo
+        have hmem : (f.name, e.2) ∈ Spec.normalise W s kw := by
+          simp only [Spec.normalise, List.mem_map]; exact ⟨e, he, by rw [hnk]⟩
+        have := lookup_of_mem_nodup _ hn _ hmem
+        simp only at this
+        rw [h] at this; cases this
+
+theorem dupBound_false_of_bind (W : World N V T) (hW : LowerIdem W) (s : Sig N V T) (wf : WF W s)
+    (args : List V) (kw : List (N × V)) (b0 : Binding N V)
+    (hk : KnownDefect.privateKw W s kw = false)
+    (hpb : Spec.pyBind s args (Spec.normalise W s kw) = some b0) : dupBound W s args kw = false := by
+  unfold Spec.pyBind at hpb
+  split at hpb
+  · rename_i hn
+    obtain ⟨_, ⟨bp, hbp⟩, _, _⟩ := pyBindCore_some s args _ b0 hpb
+    refine dupBound_false W hW s wf args kw bp ?_ hn hbp
+    intro e he hmem
+    have : KnownDefect.privateKw W s kw = true := by
+      unfold KnownDefect.privateKw
+      exact List.any_eq_true.mpr ⟨e, he, by simpa using hmem⟩
+    rw [hk] at this; cases this
+  · cases hpb
+
 /-
 **C08 (binding), full statement** — false of the code as it stands, see the two witnesses below:
 
@@ -387,18 +467,19 @@ theorem C08_binding_partial (W : World N V T) (hW : LowerIdem W) (s : Sig N V T)
   | some b0 =>
     simp only [hpb] at hexp
     have hcore := binding_core W hW s wf o args kw b0 hk ha hpb
-    unfold call
+    unfold call parseParamsD
+    simp only [dupBound_false_of_bind W hW s wf args kw b0 hk hpb, Bool.false_eq_true, if_false]
     cases hca : Spec.convArgs W (s.vp.bind (·.2)) s.pos args with
     | none =>
       simp only [hca] at hcore hexp
       cases hexp
-      simp [hcore]
+      simp [hcore, PErr.outcome]
     | some cas =>
       cases hck : Spec.convKw W s (Spec.normalise W s kw) with
       | none =>
         simp only [hca, hck] at hcore hexp
         cases hexp
-        simp [hcore]
+        simp [hcore, PErr.outcome]
       | some c =>
         simp only [hca, hck] at hcore hexp
         obtain ⟨args', kw', hpp, hfin, _⟩ := hcore
@@ -698,8 +779,8 @@ theorem reserved_core (W : World N V T) (hW : LowerIdem W) (full : Sig N V T) (r
     (hk : KnownDefect.privateKw W { full with pos := ps } kw = false)
     (ha : KnownDefect.privateAnnotated W { full with pos := ps } = false)
     (hexp : Spec.expected W { full with pos := ps } args kw = some out) :
-    (match parseParams W { full with pos := ps } o args kw with
-      | .error _ => Outcome.perr
+    (match parseParamsD W { full with pos := ps } o args kw with
+      | .error e => e.outcome
       | .ok (args', kw') => rawCall full (self :: args', kw')) = consFirst self out := by
   obtain ⟨s', hs'⟩ : ∃ s' : Sig N V T, s' = { full with pos := ps } := ⟨_, rfl⟩
   have hfull : full = { s' with pos := r :: s'.pos } := by
@@ -712,6 +793,8 @@ theorem reserved_core (W : World N V T) (hW : LowerIdem W) (full : Sig N V T) (r
   | some b0 =>
     simp only [hpb] at hexp
     have hcore := binding_core W hW s' wf o args kw b0 hk ha hpb
+    unfold parseParamsD
+    simp only [dupBound_false_of_bind W hW s' wf args kw b0 hk hpb, Bool.false_eq_true, if_false]
     have h1 : ∀ e ∈ kw, e.1 ∉ s'.excludeVars W := by
       intro e he hmem
       have : KnownDefect.privateKw W s' kw = true := by
@@ -722,13 +805,13 @@ theorem reserved_core (W : World N V T) (hW : LowerIdem W) (full : Sig N V T) (r
     | none =>
       simp only [hca] at hcore hexp
       cases hexp
-      simp [hcore, consFirst]
+      simp [hcore, consFirst, PErr.outcome]
     | some cas =>
       cases hck : Spec.convKw W s' (Spec.normalise W s' kw) with
       | none =>
         simp only [hca, hck] at hcore hexp
         cases hexp
-        simp [hcore, consFirst]
+        simp [hcore, consFirst, PErr.outcome]
       | some ck =>
         simp only [hca, hck] at hcore hexp
         obtain ⟨args', kw', hpp, hfin, hext⟩ := hcore
@@ -778,39 +861,40 @@ theorem callDecl_reserved (W : World N V T) (c : Ctx) (full : Sig N V T) (r : Pa
           | some v => (v, [], kw.filter (fun e => e.1 != r.name))
           | none => (W.noneV, [], kw)) with
       | (first, args1, kw1) =>
-        match parseParams W { full with pos := ps } o args1 kw1 with
-        | .error _ => .perr
+        match parseParamsD W { full with pos := ps } o args1 kw1 with
+        | .error e => e.outcome
         | .ok (args', kw') =>
           if c.fromClass && !W.isInst first then .perr
           else rawCall full (first :: args', kw') := by
+  have key : ∀ (first : V) (args1 : List V) (kw1 : List (N × V)),
+      (match (match parseParamsD W { full with pos := ps } o args1 kw1 with
+          | .error e => Except.error e
+          | .ok (args', kw') =>
+            if c.fromClass && !W.isInst first then Except.error PErr.perr
+            else Except.ok (first :: args', kw')) with
+        | .error e => (e.outcome : Outcome N V)
+        | .ok ak => rawCall full ak)
+      = match parseParamsD W { full with pos := ps } o args1 kw1 with
+        | .error e => e.outcome
+        | .ok (args', kw') =>
+          if c.fromClass && !W.isInst first then .perr
+          else rawCall full (first :: args', kw') := by
+    intro first args1 kw1
+    cases parseParamsD W { full with pos := ps } o args1 kw1 with
+    | error e => rfl
+    | ok ak =>
+      obtain ⟨a', k'⟩ := ak
+      by_cases hchk : (c.fromClass && !W.isInst first) = true <;> simp [hchk, PErr.outcome]
   unfold callDecl getParams
   rw [hres, hpos]
   simp only
   cases args with
-  | cons a as =>
-    simp only
-    cases parseParams W { full with pos := ps } o as kw with
-    | error e => rfl
-    | ok ak =>
-      obtain ⟨a', k'⟩ := ak
-      by_cases hchk : (c.fromClass && !W.isInst a) = true <;> simp [hchk]
+  | cons a as => exact key a as kw
   | nil =>
     simp only
     cases kw.lookup r.name with
-    | some v =>
-      simp only
-      cases parseParams W { full with pos := ps } o [] (kw.filter (fun e => e.1 != r.name)) with
-      | error e => rfl
-      | ok ak =>
-        obtain ⟨a', k'⟩ := ak
-        by_cases hchk : (c.fromClass && !W.isInst v) = true <;> simp [hchk]
-    | none =>
-      simp only
-      cases parseParams W { full with pos := ps } o [] kw with
-      | error e => rfl
-      | ok ak =>
-        obtain ⟨a', k'⟩ := ak
-        by_cases hchk : (c.fromClass && !W.isInst W.noneV) = true <;> simp [hchk]
+    | some v => exact key v [] _
+    | none => exact key W.noneV [] kw
 
 /-- **class contexts.**  When the decorated object reserves its first parameter (instance method, `classmethod`,
 method of a class decorated as a whole), a call that passes `self`/`cls` first — an instance of the class, where the
@@ -867,10 +951,13 @@ theorem C08_method_binding_self_kw (W : World N V T) (hW : LowerIdem W) (c : Ctx
 theorem C08_method_invalid_instance (W : World N V T) (c : Ctx) (full : Sig N V T) (r : Param N V T)
     (ps : List (Param N V T)) (o : Opts) (first : V) (args : List V) (kw : List (N × V))
     (hres : firstReserve c full = true) (hpos : full.pos = r :: ps)
-    (hfc : c.fromClass = true) (hinst : W.isInst first = false) :
+    (hfc : c.fromClass = true) (hinst : W.isInst first = false)
+    (hdup : dupBound W { full with pos := ps } args kw = false) :
     callDecl W c full o (first :: args) kw = .perr := by
   rw [callDecl_reserved W c full r ps o (first :: args) kw hres hpos]
   simp only [hfc, hinst, Bool.not_false, Bool.and_self, if_true]
+  unfold parseParamsD
+  simp only [hdup, Bool.false_eq_true, if_false]
   cases parseParams W { full with pos := ps } o args kw with
   | error e => rfl
   | ok ak => rfl
@@ -883,7 +970,7 @@ theorem C08_static_binding (W : World N V T) (c : Ctx) (full : Sig N V T) (o : O
   have : firstReserve c full = false := by unfold firstReserve; simp [hs, hc]
   unfold callDecl getParams call rawCall
   rw [this]
-  cases parseParams W full o args kw with
+  cases parseParamsD W full o args kw with
   | error e => rfl
   | ok ak => rfl
 
@@ -936,23 +1023,26 @@ theorem C08_method_result (W : World N V T) (hW : LowerIdem W) (c : Ctx) (full :
 
 /-- what awaiting the object returned by a decorated coroutine function gives (an exception at call time counts) -/
 def CoroRet.result : CoroRet N V → Ret N V
-  | .raisedAtCall => .perr
+  | .raisedAtCall .perr => .perr
+  | .raisedAtCall .tyerr => .tyerr
   | .awaited r => r
 
 /-- **coroutines.**  A decorated coroutine function — eager or not — gives, once awaited, exactly what the
 synchronous call of the same declaration gives (binding, converted result, errors), so every binding / result theorem
-carries over; the lazy wrapper raises nothing before the await, the eager one raises at call time exactly the
-ParseErrors of the parameters (`get_params`), never the raw call's TypeError or the result's ParseError. -/
+carries over; the lazy wrapper raises nothing before the await, the eager one raises at call time exactly the errors
+of `get_params` (the parameters' ParseErrors, the duplicate check's TypeError), never the raw call's TypeError or the
+result's ParseError. -/
 theorem C08_coroutine_result (W : World N V T) (c : Ctx) (full : Sig N V T) (o : Opts) (ret : Option T)
     (body : Binding N V → V) (args : List V) (kw : List (N × V)) (eager : Bool) :
     (coroCall eager W c full o ret body args kw).result = callR W c full o ret body args kw ∧
-    (coroCall false W c full o ret body args kw ≠ .raisedAtCall) ∧
-    (coroCall true W c full o ret body args kw = .raisedAtCall ↔ (getParams W c full o args kw).isOk = false) := by
+    (∀ e, coroCall false W c full o ret body args kw ≠ .raisedAtCall e) ∧
+    ((∃ e, coroCall true W c full o ret body args kw = .raisedAtCall e) ↔
+      (getParams W c full o args kw).isOk = false) := by
   unfold coroCall callR callDecl
   cases hg : getParams W c full o args kw with
   | error e =>
     refine ⟨?_, ?_, ?_⟩
-    · cases eager <;> simp [CoroRet.result, finish]
+    · cases eager <;> cases e <;> simp [CoroRet.result, finish, PErr.outcome]
     · simp
     · simp [Except.isOk, Except.toBool]
   | ok ak =>
@@ -1045,18 +1135,33 @@ theorem C08_private_kw_refused_witness :
     call W₁ sPrivKw { noDataLoss := true } [] [(1000, 7)] = .perr ∧
     call W₁ sPrivKw { addition := some false } [] [(1000, 7)] = .perr := by decide
 
-/-- `def f(a, **kw)`: `f(1, a=2)` — Python refuses the call ("got multiple values for argument 'a'"), so does the
-field-first strategy (the duplicate lands in `**kw` and the raw call raises the same TypeError), but data-first skips
-the keyword of an already parsed field and runs the body with `a = 1`; the specification is silent (Python does not
-bind), the strategies differ.  Without `**kwargs` both strategies ignore the duplicate. -/
+/-- `parse_params` before fix C06-dup-positional-keyword (96c9822): no duplicate check in front -/
+def callBeforeDupCheck (W : World N V T) (s : Sig N V T) (o : Opts) (args : List V) (kw : List (N × V)) :
+    Outcome N V :=
+  match parseParams W s o args kw with
+  | .error _ => .perr
+  | .ok (args', kw') =>
+    match pyBindCore s args' kw' with
+    | none => .tyerr
+    | some b => .body b
+
+/-- `def f(a, **kw)`: `f(1, a=2)` — Python refuses the call ("got multiple values for argument 'a'").  Before the
+fix, field-first did too (the duplicate landed in `**kw` and the raw call raised the same TypeError) but data-first
+skipped the keyword of an already parsed field and ran the body with `a = 1`, and without `**kwargs` both strategies
+ignored the duplicate.  Now the duplicate check answers as Python does, under either strategy, with or without
+`**kwargs`.  (The specification is silent: Python does not bind the call.) -/
 def sDup : Sig Nat Nat Nat := { pos := [{ name := 1 }], vk := some (8, none) }
 
-theorem C08_dup_positional_keyword_witness :
+theorem C08_legacy_dup_positional_keyword_witness :
     Spec.expected W₁ sDup [1] [(1, 2)] = none ∧
+    callBeforeDupCheck W₁ sDup { dfs := some false } [1] [(1, 2)] = .tyerr ∧
+    callBeforeDupCheck W₁ sDup { dfs := some true } [1] [(1, 2)] = .body ⟨[1], [], [], []⟩ ∧
+    callBeforeDupCheck W₁ { sDup with vk := none } { dfs := some false } [1] [(1, 2)] = .body ⟨[1], [], [], []⟩ ∧
+    callBeforeDupCheck W₁ { sDup with vk := none } { dfs := some true } [1] [(1, 2)] = .body ⟨[1], [], [], []⟩ ∧
     call W₁ sDup { dfs := some false } [1] [(1, 2)] = .tyerr ∧
-    call W₁ sDup { dfs := some true } [1] [(1, 2)] = .body ⟨[1], [], [], []⟩ ∧
-    call W₁ { sDup with vk := none } { dfs := some false } [1] [(1, 2)] = .body ⟨[1], [], [], []⟩ ∧
-    call W₁ { sDup with vk := none } { dfs := some true } [1] [(1, 2)] = .body ⟨[1], [], [], []⟩ := by decide
+    call W₁ sDup { dfs := some true } [1] [(1, 2)] = .tyerr ∧
+    call W₁ { sDup with vk := none } { dfs := some false } [1] [(1, 2)] = .tyerr ∧
+    call W₁ { sDup with vk := none } { dfs := some true } [1] [(1, 2)] = .tyerr := by decide
 
 /-- `def f(_x: int)`: the property wants `f(7)` converted (`107` in this world); the body gets the raw `7` -/
 def sPrivAnn : Sig Nat Nat Nat := { pos := [{ name := 1000, ann := some 0 }] }
@@ -1193,7 +1298,7 @@ example :
       = .returned ⟨[77, 102], [], [], []⟩ 102 ∧
     coroCall true W₁ { isClassm := true } sM {} (some 0) (fun _ => 60) [77] [(3, 2)]
       = .awaited (.resultErr ⟨[77, 102], [], [], []⟩) ∧
-    coroCall true W₁ { isClassm := true } sM {} (some 0) (fun _ => 1) [77] [(3, 70)] = .raisedAtCall ∧
+    coroCall true W₁ { isClassm := true } sM {} (some 0) (fun _ => 1) [77] [(3, 70)] = .raisedAtCall .perr ∧
     coroCall false W₁ { isClassm := true } sM {} (some 0) (fun _ => 1) [77] [(3, 70)] = .awaited .perr := by decide
 
 end Utv.C08
